@@ -52,5 +52,15 @@
 // 2^31/2^32/2^63/2^64 neighbours …) for non-triviality rules and histograms.
 //
 // Everything is JSON-marshalable (Expr, Value) so a single expression is a
-// complete replay payload.
+// complete replay payload.  Config.Exclude is the known-finding hook: a
+// predicate on candidate nodes that makes the generator draw another node.
+//
+// Typical use (a run-time-only check such as C01):
+//
+//	cfg := exprmatrix.Config{Special: true, MaxDepth: 3}
+//	e := cfg.AnyTree().Draw(t, "e")            // all leaves are operands
+//	exprmatrix.Number(0, exprs...)             // g0, g1, … over the whole batch
+//	d := exprmatrix.WaDecls(exprs, true, false) // d.Globals, d.Init (+ import "math" if d.NeedMath)
+//	line := "println(" + e.Wa(exprmatrix.AsOperands) + ")"
+//	v, _ := exprmatrix.Eval(e)                 // v.WaPrint() is the expected output
 package exprmatrix
